@@ -39,7 +39,7 @@ func (n *SideloadNode) Build(d *pipeline.SideloadNode) (ast.Node, error) {
 	}
 	sort.Strings(fieldKeys)
 	for _, k := range fieldKeys {
-		n.Dot("field", k, d.Fields[k])
+		n.DotZeroValueOK("field", k, d.Fields[k])
 	}
 
 	var tagKeys []string
@@ -48,7 +48,7 @@ func (n *SideloadNode) Build(d *pipeline.SideloadNode) (ast.Node, error) {
 	}
 	sort.Strings(tagKeys)
 	for _, k := range tagKeys {
-		n.Dot("tag", k, d.Tags[k])
+		n.DotZeroValueOK("tag", k, d.Tags[k])
 	}
 	return n.prev, n.err
 }
